@@ -52,6 +52,10 @@ type urlInput struct {
 	QB     string  `json:"qb,omitempty"` // and after
 	PH     *string `json:"ph,omitempty"` // m: parent text, hex
 	RH     string  `json:"rh,omitempty"` // m: text, hex
+	// the state of the URL object before NormalizeURL: "" fresh (never parsed), "p" preparsed
+	// (URL.Parse() on the raw text first, as the lq / hq / --input-seeds sources do for every seed),
+	// "s" stringed (Parse() and then String() before normalisation)
+	State string `json:"st,omitempty"`
 }
 
 func sp(s string) *string { return &s }
@@ -567,6 +571,12 @@ func genURL(r *Rng, i int, tier string) string {
 		}
 		in.RH = hex.EncodeToString([]byte(t))
 	}
+	switch x := r.Intn(100); {
+	case x < 50:
+		in.State = "p"
+	case x < 60:
+		in.State = "s"
+	}
 	j, _ := json.Marshal(in)
 	return string(j)
 }
@@ -743,6 +753,47 @@ func normOnce(raw string, parent *models.URL) (o urlObs) {
 	return urlObs{kind: "ok", text: u.String()}
 }
 
+// one evaluation with the object in a given prior state; besides String() it reports the two other
+// views of the result: Raw, and GetParsed().String() after String()
+type urlTriple struct {
+	o      urlObs
+	raw    string
+	parsed string
+}
+
+func (t urlTriple) coq(oname string) string {
+	return fmt.Sprintf("(%s, %s, %s)", oname, coqBytes(t.raw), coqBytes(t.parsed))
+}
+
+func normState(raw string, parent *models.URL, st string) (t urlTriple) {
+	defer func() {
+		if e := recover(); e != nil {
+			t = urlTriple{o: urlObs{kind: "panic", text: fmt.Sprint(e)}}
+		}
+	}()
+	u := &models.URL{Raw: raw}
+	if st == "p" || st == "s" {
+		if err := u.Parse(); err == nil && st == "s" {
+			_ = u.String()
+		}
+	}
+	if err := preprocessor.NormalizeURL(u, parent); err != nil {
+		switch {
+		case errors.Is(err, preprocessor.ErrUnsupportedScheme):
+			return urlTriple{o: urlObs{kind: "scheme"}}
+		case errors.Is(err, preprocessor.ErrUnsupportedHost):
+			return urlTriple{o: urlObs{kind: "host"}}
+		}
+		return urlTriple{o: urlObs{kind: "other"}}
+	}
+	t.raw = u.Raw
+	t.o = urlObs{kind: "ok", text: u.String()}
+	if p := u.GetParsed(); p != nil {
+		t.parsed = p.String()
+	}
+	return t
+}
+
 // a fresh, normalised object for the text (nil when the text is rejected); String() rewrites
 // the parsed URL's RawQuery and Host in place, so whether it was called before is part of the
 // state a parent can be in
@@ -784,7 +835,7 @@ func hasDotSeg(p []string) bool {
 func execURL(input string) Result {
 	var in urlInput
 	if err := json.Unmarshal([]byte(input), &in); err != nil {
-		return Result{Term: "UC None None (hx \"\") None [] None None", Tags: []string{"bad-input"}}
+		return Result{Term: "UC None None (hx \"\") None [] None None [] 0%N", Tags: []string{"bad-input"}}
 	}
 	var gtext, ptext *string
 	var text, ast string
@@ -926,9 +977,16 @@ func execURL(input string) Result {
 
 	var outs []string
 	var first urlObs
+	var firstT urlTriple
 	for k := 0; k < urlRuns; k++ {
 		// fresh objects every time; on odd runs the parent's String() has not been called yet
-		o := normOnce(text, mkParent(k%2 == 0))
+		var o urlObs
+		if k == 0 {
+			firstT = normState(text, mkParent(true), "")
+			o = firstT.o
+		} else {
+			o = normOnce(text, mkParent(k%2 == 0))
+		}
 		if o.kind == "panic" {
 			tags = append(tags, "panic")
 			note("panic in NormalizeURL/String on " + fmt.Sprintf("%q", text) + ": " + o.text)
@@ -985,8 +1043,29 @@ func execURL(input string) Result {
 			nofrag = fmt.Sprintf("(Some (%s, %s))", coqBytes(pre), oc)
 		}
 	}
+	// the same text on an object in another prior state (monitors 8, 9: the answer is a function
+	// of the text and the parent, not of the object's history)
+	states := []string{"t0"}
+	stcode := "0%N"
+	switch in.State {
+	case "p", "s":
+		tags = append(tags, map[string]string{"p": "state:preparsed", "s": "state:stringed"}[in.State])
+		stcode = map[string]string{"p": "1%N", "s": "2%N"}[in.State]
+		t := normState(text, mkParent(true), in.State)
+		switch {
+		case t == firstT:
+			states = append(states, "t0")
+		case t.o == first:
+			states = append(states, t.coq("o"))
+		default:
+			states = append(states, t.coq(t.o.coq()))
+		}
+	default:
+		tags = append(tags, "state:fresh")
+	}
 	return Result{
-		Term:       fmt.Sprintf("(let o : obs := %s in UC %s %s %s %s %s %s %s)", o0, ast, pt, coqBytes(text), pcanon, coqList(outs), again, nofrag),
+		Term: fmt.Sprintf("(let o : obs := %s in let t0 : obs * bytes * bytes := %s in UC %s %s %s %s %s %s %s %s %s)",
+			o0, firstT.coq("o"), ast, pt, coqBytes(text), pcanon, coqList(outs), again, nofrag, coqList(states), stcode),
 		Tags:       tags,
 		Nontrivial: first.kind == "ok" && (pc != nil || first.text != text),
 	}
